@@ -96,7 +96,8 @@ BfsResult bfs(H& h, Ctx& ctx, std::size_t maxStates, std::size_t maxDepth, const
 		for (auto& op : ops) {
 			auto s = rebuild(q);
 			int64_t qid = q.id;
-			ctx.sub(render(qid, &op, 6));
+			if (ctx.single || ctx.replaying) ctx.sub(render(qid, &op, 40));   // full detail only when a death is being reproduced
+			else ctx.sub(label);
 			Hist lazy{ [&, qid](std::size_t lastN) { return render(qid, &op, lastN); } };
 			bool ok = h.apply(*s, op, true, lazy);
 			++res.transitions;
